@@ -45,6 +45,7 @@ InnerLayout(nm) ==
     [] nm = "I3" -> << E("sni","priv"), E("sv","13"), E("ech","I") >>
     [] nm = "I4" -> << E("sni","priv"), E("alpn","ai"), E("sv","13"), E("ech","I"), E("ks","ki"), E("psk","pi") >>
     [] nm = "I5" -> << E("sv","13"), E("ks","ki"), E("ech","I") >>                      \* no server name, no ALPN (a client dialling an IP literal)
+    [] nm = "I7" -> << E("sni","priv"), E("sg","gi"), E("p21","z"), E("ks","ki"), E("sv","13"), E("ech","I") >>   \* an RFC 7685 padding extension is part of the hello like any other
     [] nm = "I6" -> << E("sni","priv"), E("sv","13"), E("ech","I"), E("alpn","ai"), E("x0","") >>   \* the hello ends in an extension with an empty body: its last bytes are zero, like the padding that follows
 
 Compressible == {"sg", "ks", "x1", "gr", "psk"}
